@@ -140,3 +140,23 @@ VARIANTS += [
       ":\n            errors += away_streak_min - away_streak_len\n\n"
       "    # sum up", "silent", "", "an equivalent formulation"),
 ]
+
+VARIANTS += [
+    V("scratch-type-of-team-ids", E,
+      "        dtype: Final[np.dtype] = int_range_to_dtype(\n"
+      "            -1, (n - 1) * instance.rounds)",
+      "        dtype: Final[np.dtype] = instance.game_plan_dtype",
+      "fire", "D7.6", "seed C07-scratch-type-of-team-ids"),
+    V("scratch-type-without-sentinel", E,
+      "        dtype: Final[np.dtype] = int_range_to_dtype(\n"
+      "            -1, (n - 1) * instance.rounds)",
+      "        dtype: Final[np.dtype] = int_range_to_dtype(\n"
+      "            0, (n - 1) * instance.rounds)", "fire", "D7.6",
+      "the 'never met' value -1 does not fit an unsigned type"),
+    V("silent-scratch-type-days-local", E,
+      "        dtype: Final[np.dtype] = int_range_to_dtype(\n"
+      "            -1, (n - 1) * instance.rounds)",
+      "        days: Final[int] = instance.rounds * (n - 1)\n"
+      "        dtype: Final[np.dtype] = int_range_to_dtype(\n"
+      "            min_value=-1, max_value=days)", "silent"),
+]
